@@ -1,4 +1,6 @@
 import Revm.Proofs.OpFeesTx
+import Revm.Proofs.OpFeesL1
+import Revm.Proofs.OpFeesGas
 /-! # C33 — Optimism fee distribution
 
 "With the Optimism handler, for every non-deposit transaction the sender's total debit equals the value it
@@ -18,9 +20,9 @@ composed as in `Evm::transact`), which the correspondence streams `opfee` / `opt
 * `operator_fee_rounding`, `operator_fee_exact`, `operator_fee_refund_regression`.
 * `l1_cost_uses_enveloped_tx`.
 * `deposit_mints_exactly_partial`, `failed_deposit_persists_mint_and_nonce_partial` with the regions where the
-  code departs from the sentence as `_counterexample` theorems (deposit with a non-zero gas price; deposit
-  whose gas limit is below the intrinsic gas: `transact` returns the error and persists nothing; Bedrock
-  create deposit that cannot pay its value: nonce not bumped). -/
+  code departs from the sentence as `_counterexample` theorems (deposit with a non-zero gas price, outside
+  the protocol; known finding F2: Bedrock create deposit that cannot pay its value, nonce not bumped) and
+  `deposit_intrinsic_gas_regression` (a deposit failing validation persisted nothing before commit 25ebe790). -/
 namespace Revm.Props.C33
 open Revm Revm.U256 Revm.Model.Gas Revm.Model.OpFees Revm.Proofs.OpFees
 
@@ -162,6 +164,35 @@ theorem op_fee_conservation_exact (tx : Tx) (s : Slots) (pre : St) (fr : Frame) 
 example : exTx.mint = none ∧ dataFee' exTx = 0 ∧ exPre.nonce + 1 < U64 ∧ exTx.target ≠ exTx.caller ∧
     exPre.bal exTx.target + exTx.value < W := by decide
 
+/-- **The gas that the fees are computed from.** For every transaction that passes `validate_initial_tx_gas`
+and every frame result with a non-negative refund counter, `used = gas.spent() − gas.refunded()` and the
+reported refund after `last_frame_return`, `refund` and the EIP-7623 step are the rules of `Spec.OpFees`:
+spent = limit − gas left (the whole limit after a halt); refund = min(counter, spent/5) after a successful
+frame, else 0; `(floor, 0)` when below the floor (Isthmus); a Bedrock deposit reports its limit (0 for a
+successful system transaction) and never a refund. -/
+theorem gas_rules (tx : Tx) (fr : Frame) (hl : tx.gasLimit < U64) (hr : fr.remaining ≤ tx.gasLimit)
+    (h0 : 0 ≤ fr.refunded) (h1 : fr.refunded ≤ I64MAX) (hlon : enabled tx.spec LONDON = true)
+    (hvg : validateInitialGas tx = none) :
+    usedGas (finalGas tx fr) = (Revm.Spec.OpFees.txUsedRefunded tx fr).1 ∧
+    i64AsU64 (finalGas tx fr).refunded = (Revm.Spec.OpFees.txUsedRefunded tx fr).2 := by
+  have hfl : (initialGas tx).2 ≤ tx.gasLimit := by
+    by_cases hp : enabled tx.spec PRAGUE = true
+    · unfold validateInitialGas at hvg
+      by_cases hi : (initialGas tx).1 > tx.gasLimit
+      · simp [hi] at hvg
+      · by_cases hf : (initialGas tx).2 > tx.gasLimit
+        · simp [hi, hp, hf] at hvg
+        · omega
+    · have : (initialGas tx).2 = 0 := by unfold initialGas; simp [hp]
+      omega
+  have hpr : enabled tx.spec REGOLITH = false → enabled tx.spec PRAGUE = false := by
+    unfold enabled REGOLITH PRAGUE; simp; omega
+  exact finalGas_spec tx fr hl hr h0 h1 hlon hfl hpr
+
+example : exTx.gasLimit < U64 ∧ exFr.remaining ≤ exTx.gasLimit ∧ 0 ≤ exFr.refunded ∧ exFr.refunded ≤ I64MAX ∧
+    validateInitialGas exTx = none ∧ Revm.Spec.OpFees.txUsedRefunded exTx exFr = (21000, 0) ∧
+    Revm.Spec.OpFees.txUsedRefunded { exTx with spec := ECOTONE } exFr = (16800, 4200) := by decide
+
 /-! ## operator fee (Isthmus) -/
 
 /-- **Rounding.** The refund is `charge(limit) − charge(used)` with each charge rounded down separately, the
@@ -229,6 +260,24 @@ theorem l1_cost_cached (info : L1Info) (c : Nat) (env : List Nat) (spec : Nat) (
     calculateTxL1Cost info env spec = (c, info) := by
   unfold calculateTxL1Cost; simp [h]
 
+/-- **`calculate_tx_l1_cost` is the fork's cost formula.** With the empty cache of a freshly fetched value and
+no saturating intermediate (`NoSat`: the 256-bit products of the fork's formula and, for Fjord, the 64-bit
+product `fastlz·836500` fit), the model's cost equals `Spec.OpFees.l1Cost`: Bedrock/Regolith
+`(calldataGas + overhead)·baseFee·scalar / 10^6` (calldata gas 4/16 per byte, + 68·16 before Regolith), Ecotone
+`calldataGas·(16·baseFee·baseFeeScalar + blobBaseFee·blobScalar) / 16·10^6` (the Bedrock formula while the Ecotone
+scalars are empty), Fjord `max(10^8, 836500·fastlz − 42585600)·(16·baseFee·baseFeeScalar + blobBaseFee·blobScalar) / 10^12`,
+0 for an empty or `0x7f…` envelope. (The FastLZ length itself is the transcribed function, validated by the
+correspondence stream only.) -/
+theorem l1_cost_formula (info : L1Info) (input : List Nat) (spec : Nat) (hc : info.txL1Cost = none)
+    (hecf : enabled spec FJORD = true → enabled spec ECOTONE = true) (hn : NoSat info input spec) :
+    (calculateTxL1Cost info input spec).1 = Revm.Spec.OpFees.l1Cost info input spec :=
+  l1Cost_eq info input spec hc hecf hn
+
+/-- the repository's own Fjord vector (`test_calculate_tx_l1_cost_fjord`, 6 bytes `FACADE`… here 3): cost 1700 -/
+example : (calculateTxL1Cost
+    { L1Info.default with l1BaseFee := 1000, l1BaseFeeScalar := 1000, l1BlobBaseFee := some 1000, l1BlobBaseFeeScalar := some 1000 }
+    [0xfa, 0xca, 0xde] FJORD).1 = 1700 := by decide +kernel
+
 /-! ## deposits -/
 
 /-- **A deposit with gas price 0 mints exactly its mint.** Whatever the first frame does (`exec`), the state
@@ -272,25 +321,40 @@ example : validateInitialGas exDep = none ∧ effectiveGasPrice exDep = 0 ∧ da
     exPre.bal exDep.caller + exDep.mint.getD 0 < W ∧
     (execSimple exDep (minted exDep exPre) exFr).bal exDep.caller < W := by decide +kernel
 
-/-- **A failing deposit keeps mint and nonce.** For the frames of the harness: a deposit (gas price 0) whose
+/-- **A failing deposit keeps mint and nonce.** For the frames of the harness: a deposit (gas price 0) that
+fails validation (gas limit below the intrinsic gas or the EIP-7623 floor; repaired by commit 25ebe790) or whose
 first frame reverts or halts ends with the sender's balance = pre-balance + mint, nonce + 1 and every other
-balance untouched; from Regolith on a halt is reported as `FailedDeposit` with the whole gas limit used.
-Excluded (see the counterexamples): gas limit below the intrinsic gas, and a create that cannot pay its value
-unless it is a halt from Regolith on. -/
+balance untouched; a validation failure and, from Regolith on, a halt are reported as `FailedDeposit`.
+Excluded (known finding F2, see `deposit_bedrock_create_nonce_counterexample`): a create that cannot pay its
+value, unless it ends as a `FailedDeposit`. -/
 theorem failed_deposit_persists_mint_and_nonce_partial (tx : Tx) (s : Slots) (pre : St) (fr : Frame)
-    (hdep : tx.isDeposit = true) (hvg : validateInitialGas tx = none)
+    (hdep : tx.isDeposit = true)
     (hegp : effectiveGasPrice tx = 0) (hdf : dataFee' tx = 0)
     (hmint : pre.bal tx.caller + tx.mint.getD 0 < W) (hn : pre.nonce + 1 < U64)
-    (hfail : fr.cls ≠ .ok)
+    (hfail : validateInitialGas tx ≠ none ∨ fr.cls ≠ .ok)
     (hcreate : tx.isCreate = true →
-      (fr.cls = .halt ∧ enabled tx.spec REGOLITH = true) ∨ tx.value ≤ pre.bal tx.caller + tx.mint.getD 0) :
+      validateInitialGas tx ≠ none ∨ (fr.cls = .halt ∧ enabled tx.spec REGOLITH = true) ∨
+      tx.value ≤ pre.bal tx.caller + tx.mint.getD 0) :
     ∃ kind used st',
       transact tx s pre fr = .done kind used 0 st' ∧
-      (kind = .failedDeposit ↔ (fr.cls = .halt ∧ enabled tx.spec REGOLITH = true)) ∧
-      (kind = .failedDeposit → used = tx.gasLimit) ∧
+      (kind = .failedDeposit ↔ (validateInitialGas tx ≠ none ∨ (fr.cls = .halt ∧ enabled tx.spec REGOLITH = true))) ∧
+      (kind = .failedDeposit → enabled tx.spec REGOLITH = true → used = tx.gasLimit) ∧
       st'.bal tx.caller = pre.bal tx.caller + tx.mint.getD 0 ∧
       st'.nonce = pre.nonce + 1 ∧
       (∀ x, x ≠ tx.caller → st'.bal x = pre.bal x) := by
+  cases hvg : validateInitialGas tx with
+  | some e =>
+    unfold transact
+    rw [transactWith_deposit_preverify tx s pre _ fr e hdep hvg]
+    obtain ⟨used, hfd, hu⟩ := failedDeposit_any tx pre hmint hn
+    rw [hfd]
+    exact ⟨_, _, _, rfl, ⟨fun _ => Or.inl (by simp), fun _ => rfl⟩, fun _ h => hu h, by simp only [upd_same], rfl,
+      fun x hx => by simp only [upd_other _ _ _ _ hx]⟩
+  | none =>
+  have hfail : fr.cls ≠ .ok := by
+    rcases hfail with h | h
+    · exact absurd hvg h
+    · exact h
   have hmb : (minted tx pre).bal tx.caller = pre.bal tx.caller + tx.mint.getD 0 := by
     unfold minted; simp only [upd_same]
   have hbal := execSimple_fail tx (minted tx pre) fr hfail
@@ -302,14 +366,15 @@ theorem failed_deposit_persists_mint_and_nonce_partial (tx : Tx) (s : Slots) (pr
     have hout : output tx pre (execSimple tx (minted tx pre) fr) fr.cls (finalGas tx fr) = failedDeposit tx pre := by
       unfold output; simp only [hfd.1, hdep, hfd.2, Bool.and_self, if_true]
     rw [hout, failedDeposit_eq tx pre hfd.2 hmint hn]
-    exact ⟨_, _, _, rfl, ⟨fun _ => hfd, fun _ => rfl⟩, fun _ => rfl, by simp only [upd_same], rfl,
+    exact ⟨_, _, _, rfl, ⟨fun _ => Or.inr hfd, fun _ => rfl⟩, fun _ _ => rfl, by simp only [upd_same], rfl,
       fun x hx => by simp only [upd_other _ _ _ _ hx]⟩
   · -- the frame's state is returned: no value moved, the nonce was bumped by `deduct_caller` or by the create
     have hnonce : (execSimple tx (minted tx pre) fr).nonce = pre.nonce + 1 := by
       rw [execSimple_nonce]
       by_cases hc : tx.isCreate = true
       · have hv : tx.value ≤ pre.bal tx.caller + tx.mint.getD 0 := by
-          rcases hcreate hc with h | h
+          rcases hcreate hc with h | h | h
+          · exact absurd hvg h
           · exact absurd h hfd
           · exact h
         have hmn : (minted tx pre).nonce = pre.nonce := by unfold minted; simp only [hc, if_true]
@@ -335,16 +400,19 @@ theorem failed_deposit_persists_mint_and_nonce_partial (tx : Tx) (s : Slots) (pr
         exact ⟨_, _, rfl, by decide⟩
     obtain ⟨kind, used, hout, hk⟩ := hkind
     rw [hout]
-    refine ⟨kind, used, _, rfl, ⟨fun h => absurd h hk, fun h => absurd h hfd⟩, fun h => absurd h hk, ?_, hnonce, ?_⟩
+    refine ⟨kind, used, _, rfl, ⟨fun h => absurd h hk, fun h => ?_⟩, fun h => absurd h hk, ?_, hnonce, ?_⟩
+    · rcases h with h | h
+      · exact absurd rfl h
+      · exact absurd h hfd
     · rw [hbal, hmb]
     · intro x hx; rw [hbal]; unfold minted; simp only [upd_other _ _ _ _ hx]
 
 def exFail : Frame := { cls := .halt, remaining := 0, refunded := 0 }
-example : validateInitialGas exDep = none ∧ effectiveGasPrice exDep = 0 ∧ exFail.cls ≠ .ok ∧
-    exPre.nonce + 1 < U64 ∧ exDep.isCreate = false := by decide
+example : effectiveGasPrice exDep = 0 ∧ exFail.cls ≠ .ok ∧ exPre.nonce + 1 < U64 ∧ exDep.isCreate = false ∧
+    validateInitialGas { exDep with gasLimit := 20000 } ≠ none := by decide
 
 /-- the sentence about deposits, literally: every deposit ends `done`, the six accounts grow by exactly the
-mint, and a deposit whose frame fails has nonce + 1 — FALSE of the code in three regions -/
+mint, and a deposit whose frame fails has nonce + 1 — FALSE of the code (a non-zero gas price; known finding F2) -/
 def FullStatementDeposit : Prop :=
   ∀ (tx : Tx) (s : Slots) (pre : St) (fr : Frame),
     tx.isDeposit = true → Revm.Spec.OpFees.distinct tx = true →
@@ -360,17 +428,18 @@ def pricedDep : Tx := { exDep with gasPrice := 1000, mint := none }
 def bedrockCreateDep : Tx := { exDep with spec := BEDROCK, isCreate := true, data := [0], value := 1, mint := none, target := 0xC0DE }
 def emptyPre : St := { bal := fun _ => 0, nonce := 0 }
 
-/-- **Counterexample 1**: a deposit whose gas limit does not cover the intrinsic gas is answered with
-`CallGasCostMoreThanGasLimit` by `Evm::transact` (`preverify_transaction_inner` fails before `end` can turn the
-error into a failed deposit): neither the mint nor the nonce increment is persisted. General form:
-`transactWith_deposit_preverify`. Witness line: any generated `optx` deposit line with reply `err:intrinsic`. -/
-theorem deposit_intrinsic_gas_counterexample :
-    outcomeSum lowGasDep (transact lowGasDep exSlots exPre exFr) = none ∧
-    (∃ e, transact lowGasDep exSlots exPre exFr = .err e) := by
-  refine ⟨by decide +kernel, .intrinsic, ?_⟩
-  exact transactWith_deposit_preverify lowGasDep exSlots exPre _ exFr .intrinsic (by decide) (by decide)
+/-- **Regression (repaired by commit 25ebe790).** A deposit whose gas limit does not cover the intrinsic gas:
+`Evm::transact` used to return `CallGasCostMoreThanGasLimit` from `preverify_transaction_inner` before the `end`
+handle could turn the error into a failed deposit, so neither the mint nor the nonce increment was persisted
+(`transactWithOld`); now the error goes through `end`: the six balances grow by the mint (5), the nonce is 1.
+Witness line: corpus/C33/optx-theorem-witnesses.case, line 3. -/
+theorem deposit_intrinsic_gas_regression :
+    outcomeSum lowGasDep (transact lowGasDep exSlots exPre exFr) = some (sixSum lowGasDep exPre.bal + 5, 1) ∧
+    transactWithOld lowGasDep exSlots exPre (fun st => execSimple lowGasDep st exFr) exFr = .err .intrinsic := by
+  refine ⟨by decide +kernel, ?_⟩
+  exact transactWithOld_deposit_preverify lowGasDep exSlots exPre _ exFr .intrinsic (by decide) (by decide)
 
-/-- **Counterexample 2**: a deposit with a non-zero gas price (outside the OP protocol, where deposits carry
+/-- **Counterexample (out of protocol)**: a deposit with a non-zero gas price (outside the OP protocol, where deposits carry
 price 0) on an account that cannot pay `limit · price`: the debit saturates at 0, the reimbursement of the
 unused and refunded gas (79 000 + 4 200 units) is paid in full — 83 200 000 wei appear from nothing (with a funded account the fee is burnt
 instead: nobody is credited). -/
@@ -378,7 +447,7 @@ theorem deposit_gas_price_counterexample :
     outcomeSum pricedDep (transact pricedDep exSlots emptyPre exFr) = some (83200000, 1) ∧
     sixSum pricedDep emptyPre.bal + pricedDep.mint.getD 0 = 0 := by decide +kernel
 
-/-- **Counterexample 3**: Bedrock, a create deposit that cannot pay its value: the frame fails with
+/-- **Counterexample (known finding F2)**: Bedrock, a create deposit that cannot pay its value: the frame fails with
 `OutOfFunds` before the nonce is bumped and Bedrock returns the halt as it is — the nonce stays 0. -/
 theorem deposit_bedrock_create_nonce_counterexample :
     outcomeSum bedrockCreateDep (transact bedrockCreateDep exSlots emptyPre exFail) = some (0, 0) := by
@@ -386,8 +455,11 @@ theorem deposit_bedrock_create_nonce_counterexample :
 
 theorem deposit_full_statement_false : ¬ FullStatementDeposit := by
   intro h
-  obtain ⟨n, h1, _⟩ := h lowGasDep exSlots exPre exFr rfl (by decide)
-  rw [deposit_intrinsic_gas_counterexample.1] at h1
-  cases h1
+  obtain ⟨n, h1, h2⟩ := h bedrockCreateDep exSlots emptyPre exFail rfl (by decide)
+  rw [deposit_bedrock_create_nonce_counterexample] at h1
+  have hn := h2 (by decide)
+  simp only [Option.some.injEq, Prod.mk.injEq] at h1
+  have : emptyPre.nonce = 0 := rfl
+  omega
 
 end Revm.Props.C33
